@@ -17,9 +17,8 @@ from cryptography.hazmat.primitives import hashes
 from cryptography.hazmat.primitives.asymmetric import ec, padding, utils as asym_utils
 
 PID = "C15"
-THEOREMS = ["struct_roundtrip", "dc_roundtrip", "dc_roundtrip_p521_refuted", "dc_created_roundtrip_except_known",
-            "dc_sig_covers_all", "dc_verify_obligation", "dc_names_rot_key", "dc_rot_hash_rsa", "dc_rot_hash_ecc",
-            "dar_embeds_dc_beacon", "dar_binds", "dar_verify_sound", "dac_roundtrip", "parse_dispatch_except_known",
+THEOREMS = ["struct_roundtrip", "dc_roundtrip", "dc_roundtrip_p521_refuted", "dc_sig_covers_all", "dc_verify_obligation",
+            "dc_rot_hash_rsa", "dar_embeds_dc_beacon", "dar_binds", "dar_verify_sound", "parse_dispatch_except_known",
             "parse_dispatch_refuted"]
 KEYDIR = os.path.join(vlib.WORK, PID, "keys")
 KLASS = {"DebugCredentialCertificateRsa": 0, "DebugCredentialCertificateEcc": 1, "DebugCredentialEdgeLockEnclave": 2}
